@@ -37,8 +37,25 @@ func goDigest(img []byte, h crypto.Hash) (digest []byte, class string) {
 	var p *authenticode.PECOFFBinary
 	var err error
 	var rd io.ReaderAt = bytes.NewReader(img)
-	if crc32.ChecksumIEEE(img)%2 == 1 { // the reader kind is a function of the input: replays are exact
+	switch k := crc32.ChecksumIEEE(img); k % 5 { // the reader kind is a function of the input: replays are exact
+	case 1:
 		rd = eofAtEnd{img}
+	case 2:
+		// a reader the caller has already read from: ReadAt ignores the read position, Len() does not
+		br := bytes.NewReader(img)
+		io.CopyN(io.Discard, br, int64(k>>8)%int64(len(img)+1))
+		rd = br
+	case 3:
+		// a window into a larger buffer (an image embedded in a container)
+		big := make([]byte, 0, len(img)+96)
+		big = append(big, bytes.Repeat([]byte{0xEE}, 40)...)
+		big = append(big, img...)
+		big = append(big, bytes.Repeat([]byte{0xDD}, 56)...)
+		rd = io.NewSectionReader(bytes.NewReader(big), 40, int64(len(img)))
+	case 4:
+		sr := strings.NewReader(string(img))
+		io.CopyN(io.Discard, sr, int64(k>>8)%9)
+		rd = sr
 	}
 	if pan, _ := safely(func() { p, err = authenticode.Parse(rd) }); pan {
 		return nil, "panic"
